@@ -209,9 +209,16 @@ type otherContactsAction struct {
 func (a *otherContactsAction) resolveRecipients(run flows.Run, logEvent flows.EventCallback) ([]*assets.GroupReference, []*flows.ContactReference, string, []urns.URN, error) {
 	groupSet := run.Session().Assets().Groups()
 
-	// copy URNs
+	// copy URNs.. which aren't validated when the definition is read, so ones that wouldn't be valid in the event we create
+	// are reported and skipped
 	urnList := make([]urns.URN, 0, len(a.URNs))
-	urnList = append(urnList, a.URNs...)
+	for _, urn := range a.URNs {
+		if urn.Validate() != nil {
+			logEvent(events.NewErrorf("'%s' is not a valid URN", urn))
+		} else {
+			urnList = append(urnList, urn)
+		}
+	}
 
 	// copy contact references
 	contactRefs := make([]*flows.ContactReference, 0, len(a.Contacts))
